@@ -386,6 +386,13 @@ Proof.
 Qed.
 End ConvMP.
 
+Lemma mp_scan_bitmap : forall fuel s bs, mpo s snd (scan_bitmap fuel s bs).
+Proof.
+  induction fuel as [|f IH]; intros s bs; cbn [scan_bitmap]; [exact I|].
+  destruct (is_token (scat s)); [|cbn; apply MP_refl].
+  eapply mpo_bind; [apply mp_scan_ascii_str|]. intros [r s1] _. cbn [fst snd]. apply IH.
+Qed.
+
 (* ------------------------------------------------------------- entry layer *)
 
 Lemma mp_scan_field origin f s : mpo s snd (scan_field origin f s).
@@ -405,6 +412,8 @@ Proof.
   - apply mp_convert_entry.
   - eapply mpo_bind; [apply mp_scan_uint|]. intros [v s1] _. cbn. apply MP_refl.
   - eapply mpo_bind; [apply mp_convert_token|]. intros [v s1] _. cbn. apply MP_refl.
+  - eapply mpo_bind; [apply mp_convert_token|]. intros [v s1] _. cbn. apply MP_refl.
+  - apply mp_scan_bitmap.
 Qed.
 
 Lemma mp_scan_fields origin : forall fs s acc, mpo s snd (scan_fields origin fs s acc).
